@@ -6,8 +6,12 @@ short operation histories of ONE reused OFDM / equaliser / channel object):
 Part P (parameters): every triple (fft, cp, used) of a small integer grid that
   also contains all the *invalid* neighbours (negative / too large cp, odd /
   too small / too large used, used=None, fft in {-1,0,1}) through the
-  constructor and through `set_parameters`: valid <=> accepted with the
-  attributes stored; invalid <=> ValueError.
+  constructor and through `set_parameters`: valid => accepted with the
+  attributes stored.  The property quantifies over VALID triples only, so an
+  invalid call is free (raise anything / be accepted: recorded as an outcome);
+  required is coherence afterwards (tools/INVALID_CALL_POLICY.md): if the triple
+  the object REPORTS is valid all relations hold for it and it equals a fresh
+  object, otherwise the next valid set_parameters restores correct behaviour.
 Part R (round trip): every valid (fft, cp, used) of the tier x the six input
   lengths {1, used-1, used, used+1, 2 used, 2 used+3} x six input forms
   (contiguous complex128, strided view, negative-stride view, complex64,
@@ -52,8 +56,8 @@ PID = "C02"
 LEVEL = "exploration"
 ENGINE = "E1 exhaustive product enumerator + E3 BFS over reuse histories of one OFDM/equaliser/channel object"
 RULE = ("P: every (fft, cp, used) of the integer grid fft in -1..Fp, cp in -2..fft+2, used in "
-        "{None} U -2..fft+2, via constructor and via set_parameters (valid <=> accepted, invalid "
-        "<=> ValueError). R: every valid (fft, cp in 0..fft, even used in 2..fft) of the tier x "
+        "{None} U -2..fft+2, via constructor and via set_parameters (valid => accepted and stored; invalid "
+        "=> outcome only, then coherence of the object for the triple it reports). R: every valid (fft, cp in 0..fft, even used in 2..fft) of the tier x "
         "input lengths {1, used-1, used, used+1, 2used, 2used+3} x input forms {complex128, strided, "
         "reversed view, complex64, int64, float64}, symbols x_k=(1+k/8)e^{j(0.7k+c)} (k+1 resp. 1+k/8 "
         "for the real forms): round trip, output length, prefix==tail sample by sample, O(N^2)-DFT "
@@ -714,6 +718,8 @@ def run_ch_unit(chk, cfg, ds, full, off, seed, p):
     pw = (_POW_FULL if full else _POW_BOUNDARY)[len(ds)]
     which = p["ch_lengths_full"] if full else p["ch_lengths_boundary"]
     nreal = (p["nreal_full_3taps"] if len(ds) == 3 else p["nreal_full"]) if full else p["nreal_boundary"]
+    if chk.tier == "thorough" and fft > 16:
+        nreal = 1                   # large sizes: one realisation per profile (cost)
     for ip, pt in enumerate(pw):
         for r in range(nreal):
             first = ip == 0 and r == 0
@@ -1025,6 +1031,9 @@ def main(chk: Check):
                "caller's array object in place (shape only), which the property does not forbid")
     chk.assume("an empty input (0 symbols -> empty output), an all-zero input and a tap of exactly zero power "
                "(-inf dB, reported tap value 0, still counted for the channel memory) are inside the domain")
+    chk.assume("invalid (fft, cp, used) are outside the property's quantifier: what the call does is recorded "
+               "as an outcome; required is only that the object stays coherent for the triple it reports "
+               "(or is fully restored by the next valid set_parameters)")
     chk.assume("histories: attribute assignments are enabled only when the resulting triple is valid; "
                "histories merge (beyond depth 1) when OFDM object, channel and reported impulse response "
                "have identical whole-object digests")
@@ -1035,6 +1044,7 @@ def main(chk: Check):
                      channel_configs=len(list(channel_configs(tier))),
                      realisations_per_profile_full_full3taps_boundary=[p["nreal_full"], p["nreal_full_3taps"],
                                                                        p["nreal_boundary"]],
+                     realisations_per_profile_fft_above_16_thorough=1,
                      channel_lengths_full_alphabet=p["ch_lengths_full"],
                      channel_lengths_boundary_alphabet=p["ch_lengths_boundary"],
                      power_tuples_full=[len(_POW_FULL[k]) for k in (1, 2, 3)],
@@ -1043,7 +1053,6 @@ def main(chk: Check):
                      multi_object_triples=[list(t) for t in M_TRIPLES], history_depth=p["hist_depth"],
                      history_triples=[list(t) for t in H_TRIPLES],
                      history_events_per_state=len(h_enabled(H_TRIPLES[0])))
-    chk.require_outcomes("invalid_call", 2) if False else None
     # smallest configurations first, serially, so that the stored witness of every
     # signature is the smallest one
     for u in units(tier):
@@ -1070,6 +1079,7 @@ def main(chk: Check):
     chk.require_outcomes("ntaps", 3)
     chk.require_outcomes("guard_bins", 3)
     chk.require_outcomes("params", 2)
+    chk.require_outcomes("invalid_call", 2)
     chk.require_outcomes("input_form", len(FORMS))
     chk.require_outcomes("profile_form", 3)
     chk.require_outcomes("zero_power_tap", 2)
